@@ -419,6 +419,12 @@ def c08(v):
         for c in late:
             if not (c in v.cancel and v.cancel[c][1] <= dl):
                 V.append("C08 %s was still running after the timeout of %s (t=%d) and was not cancelled at that instant" % (c, s, dl))
+        # ... and the cancellation takes effect: only jobs that finished before the expiry are done
+        for c in v.children[s]:
+            if c in v.cancel and v.cancel[c][1] == dl and c in v.stop and v.stop[c][0] > v.cancel[c][0] and \
+                    v.stop[c][2] not in ("cdone", "rcancel"):
+                V.append("C08 %s, cancelled when the timeout of %s expired at t=%d, was not cancelled in effect: it ended by itself (%s at t=%d)"
+                         % (c, s, dl, v.stop[c][2], v.stop[c][1]))
         if ended is None:
             if "hang" not in v.res:
                 V.append("C08 %s never ended although its timeout expired at t=%d" % (s, dl))
